@@ -1,8 +1,85 @@
 (* C09 -- pod membership is wired symmetrically between pods and their containers.
-   PARTIAL: proved are the handler-level facts (what a member container gets and records in the name table; what a pod's service
-   gets from the recorded list; the three failure cases).  "Exactly those containers, whatever the numbers and names" over whole
-   runs is decided by the direct oracle and by correspondence of the Process model. *)
-From QV Require Import Model.Base Generated.Tables Model.Quote Model.Unit Model.Names Model.Convert Proofs.C07 Proofs.C09.
+   Proved on the model for the whole generator run over arbitrary file contents (parse, name table, sort by type priority,
+   convert one after the other with the table threaded through):
+     C09_pods_want_exactly_their_members   when a .pod unit is converted, its service wants and is ordered before exactly the
+                                           containers registered so far (after the user's own Wants=/Before= and, for Wants, the
+                                           default dependency), every container precedes every pod in the run, and the service file
+                                           name the pod's own conversion returns is the one the table held for it from the start;
+     C09_members_spec / C09_registered_spec which containers those are: converted (or failed only in the final ExecStart store),
+                                           Pod= names this pod's file, StartWithPod not switched off;
+     C09_members_are_bound_to_their_pod    a converted container naming Pod=p.pod has BindsTo=/After= that same service file name and
+                                           --pod-id-file %t/<that name without .service>.pod-id, and is registered unless it opted out;
+   plus the handler-level facts of the first round (C09_member, C09_errors, C09_members_wired, C09_slash_refuted).
+   The tie to /repo: whole-service correspondence of the Process model with the implementation on generated pod/container
+   populations, and the direct oracle of tools/props/C09.py on implementation output. *)
+From Coq Require Import Sorting.Sorted.
+From QV Require Import Model.Base Generated.Tables Model.Quote Model.Unit Model.Parser Model.Path Model.Names Model.Convert Model.Process Proofs.C07 Proofs.C07run Proofs.C08 Proofs.C09 Proofs.C09run.
+
+(* ---- the whole run ---- *)
+(* loaded_units files: the units that loaded; sort_units: by type priority; table_of: the name table before any conversion;
+   final_tbl l1 tbl0: the table after converting the prefix l1; members l1 tbl0 P: what those conversions registered for pod file P *)
+Theorem C09_pods_want_exactly_their_members : forall podman exists_path kill_fixed mount_nl files l1 xp l2 P svc sp t',
+  sort_units (loaded_units files) = l1 ++ xp :: l2 -> i_type (l_info xp) = TPod -> file_name (l_path xp) = Some P ->
+  let tbl0 := table_of (sort_units (loaded_units files)) in
+  convert_one podman exists_path kill_fixed mount_nl (l_unit xp) (l_path xp) (i_type (l_info xp))
+              (final_tbl podman exists_path kill_fixed mount_nl l1 tbl0) = COk (svc, sp, t') ->
+  (forall x, In x l2 -> i_type (l_info x) <> TContainer) /\
+  sfile tbl0 P = Some sp /\
+  exists pre, (pre = [] \/ pre = [s2l "network-online.target"]) /\
+    vals svc SEC_U (s2l "Wants") = pre ++ vals (l_unit xp) SEC_U (s2l "Wants")
+                                   ++ map quote_value (members podman exists_path kill_fixed mount_nl l1 tbl0 P) /\
+    vals svc SEC_U (s2l "Before") = vals (l_unit xp) SEC_U (s2l "Before")
+                                    ++ map quote_value (members podman exists_path kill_fixed mount_nl l1 tbl0 P).
+Proof. exact pods_want_exactly_their_members. Qed.
+
+(* the result of converting the unit at a position of the run is computed with the table the prefix left behind *)
+Theorem C09_run_position : forall podman exists_path kill_fixed mount_nl l1 x l2 tbl0,
+  convert_all podman exists_path kill_fixed mount_nl (l1 ++ x :: l2) tbl0 =
+  convert_all podman exists_path kill_fixed mount_nl l1 tbl0 ++
+  (l_path x, res_of (convert_one podman exists_path kill_fixed mount_nl (l_unit x) (l_path x) (i_type (l_info x))
+                                 (final_tbl podman exists_path kill_fixed mount_nl l1 tbl0)))
+  :: convert_all podman exists_path kill_fixed mount_nl l2 (final_tbl podman exists_path kill_fixed mount_nl (l1 ++ [x]) tbl0).
+Proof. exact run_position. Qed.
+
+Theorem C09_members_spec : forall podman exists_path kill_fixed mount_nl l tbl P s,
+  In s (members podman exists_path kill_fixed mount_nl l tbl P) <->
+  exists l1 x l2, l = l1 ++ x :: l2 /\
+    In s (regd podman exists_path kill_fixed mount_nl x (final_tbl podman exists_path kill_fixed mount_nl l1 tbl) P).
+Proof. exact members_spec. Qed.
+
+Theorem C09_registered_spec : forall podman exists_path kill_fixed mount_nl x tbl P s,
+  In s (regd podman exists_path kill_fixed mount_nl x tbl P) <->
+  (i_type (l_info x) = TContainer /\
+   ((exists svc sp t', convert_one podman exists_path kill_fixed mount_nl (l_unit x) (l_path x) (i_type (l_info x)) tbl = COk (svc, sp, t')) \/
+    (exists t', convert_one podman exists_path kill_fixed mount_nl (l_unit x) (l_path x) (i_type (l_info x)) tbl = CErr (EB EParsing) (Some t'))) /\
+   (exists i, @lk berr (l_unit x) c_CONTAINER_SECTION (s2l "Pod") = COk (Some P) /\ P <> [] /\ ends_with (s2l ".pod") P = true /\
+              tbl_get tbl P = Some i /\ start_with_pod (l_unit x) = true) /\
+   own_sfile x tbl = Some s).
+Proof.
+  intros. rewrite regd_spec. split; intros (A & B & (i & C) & D); (split; [exact A|split; [exact B|split; [exists i|exact D]]]);
+    apply pod_reg_spec; exact C.
+Qed.
+
+Theorem C09_members_are_bound_to_their_pod : forall podman exists_path kill_fixed mount_nl files l1 xc l2 svc sp t' c p,
+  sort_units (loaded_units files) = l1 ++ xc :: l2 -> i_type (l_info xc) = TContainer ->
+  @lk berr (l_unit xc) c_CONTAINER_SECTION (s2l "Pod") = COk (Some (c :: p)) ->
+  let tbl0 := table_of (sort_units (loaded_units files)) in
+  convert_one podman exists_path kill_fixed mount_nl (l_unit xc) (l_path xc) (i_type (l_info xc))
+              (final_tbl podman exists_path kill_fixed mount_nl l1 tbl0) = COk (svc, sp, t') ->
+  exists psf, sfile tbl0 (c :: p) = Some psf /\ ends_with (s2l ".pod") (c :: p) = true /\
+    In (quote_value psf) (vals svc SEC_U (s2l "BindsTo")) /\ In (quote_value psf) (vals svc SEC_U (s2l "After")) /\
+    (exists before pre post, vals svc SEC_S (s2l "ExecStart") =
+       before ++ [quote_words (pre ++ [s2l "--pod-id-file"; s2l "%t/" ++ strip_service psf ++ s2l ".pod-id"] ++ post)]) /\
+    (start_with_pod (l_unit xc) = true ->
+       own_sfile xc (final_tbl podman exists_path kill_fixed mount_nl l1 tbl0) = Some sp /\
+       In sp (members podman exists_path kill_fixed mount_nl (l1 ++ [xc]) tbl0 (c :: p))).
+Proof. exact members_are_bound_to_their_pod. Qed.
+
+(* the service file name of every table entry never changes during a run; the list of containers only grows by registrations *)
+Theorem C09_table_along_the_run : forall podman exists_path kill_fixed mount_nl l tbl P,
+  sfile (final_tbl podman exists_path kill_fixed mount_nl l tbl) P = sfile tbl P /\
+  conts (final_tbl podman exists_path kill_fixed mount_nl l tbl) P = conts tbl P ++ members podman exists_path kill_fixed mount_nl l tbl P.
+Proof. intros. split; [apply final_sfile|apply final_conts]. Qed.
 
 Theorem C09_member : forall u sec svc svc_path tbl args c p i,
   @lk berr u sec (s2l "Pod") = COk (Some (c :: p)) -> ends_with (s2l ".pod") (c :: p) = true -> tbl_get tbl (c :: p) = Some i ->
